@@ -135,6 +135,25 @@ namespace detail
 		}
 	};
 
+	// For negative values of signed types, findMSB is the position of the most significant 0 bit
+	template<length_t L, typename T, qualifier Q, bool IsSigned>
+	struct compute_findMSB_signed
+	{
+		GLM_FUNC_QUALIFIER static vec<L, T, Q> call(vec<L, T, Q> const& v)
+		{
+			return v;
+		}
+	};
+
+	template<length_t L, typename T, qualifier Q>
+	struct compute_findMSB_signed<L, T, Q, true>
+	{
+		GLM_FUNC_QUALIFIER static vec<L, T, Q> call(vec<L, T, Q> const& v)
+		{
+			return mix(v, ~v, lessThan(v, vec<L, T, Q>(0)));
+		}
+	};
+
 #	if GLM_HAS_BITSCAN_WINDOWS
 		template<typename genIUType>
 		GLM_FUNC_QUALIFIER int compute_findMSB_32(genIUType Value)
@@ -373,7 +392,7 @@ namespace detail
 	{
 		GLM_STATIC_ASSERT(std::numeric_limits<T>::is_integer, "'findMSB' only accept integer values");
 
-		return detail::compute_findMSB_vec<L, T, Q, static_cast<int>(sizeof(T) * 8)>::call(v);
+		return detail::compute_findMSB_vec<L, T, Q, static_cast<int>(sizeof(T) * 8)>::call(detail::compute_findMSB_signed<L, T, Q, std::numeric_limits<T>::is_signed>::call(v));
 	}
 }//namespace glm
 
